@@ -2,7 +2,7 @@
    ExtrOcamlBasic only: N, positive, nat, byte stay Coq datatypes. *)
 From Coq Require Extraction ExtrOcamlBasic.
 From Coq Require Import NArith.
-From V Require Import Model.Lib Model.Afs Model.Abs Model.Agree.
+From V Require Import Gen.GenSuper Model.SuperModel Model.Lib Model.Afs Model.Abs Model.Agree.
 Extraction Blacklist String List Nat.
 Set Extraction KeepSingleton.
 Extraction "extracted.ml"
@@ -10,4 +10,8 @@ Extraction "extracted.ml"
   Lib.byte_of_N Lib.mk_handle Lib.parse_handle Lib.zeros
   Afs.step Afs.init_afs Afs.set_unstable Afs.objs
   Abs.abs_disk Abs.disk_set Abs.empty_disk Abs.mk_layout
+  GenSuper.MkFsSuper GenSuper.MaxBnum GenSuper.BitmapBlockStart GenSuper.BitmapInodeStart GenSuper.InodeStart
+  GenSuper.DataStart GenSuper.NInode GenSuper.Inum2Addr GenSuper.NBlockBitmap
+  SuperModel.markAlloc_sane SuperModel.mk_bit SuperModel.mk_ibit SuperModel.fresh_free_blocks SuperModel.fresh_free_inodes
+  SuperModel.layout_ok_b SuperModel.bitmap_ok_b
   Agree.agree Agree.hint_of Agree.cmp_state Agree.class_of Agree.code_of.
